@@ -44,10 +44,15 @@ class PosLine(NamedTuple):
                 cache.append(pl)  # noqa: PERF401
             i += len(line)
 
+        # the entry for the end of the text: a new empty line when the last line
+        # ends in a line break, else the (unterminated) last line itself
+        last = lines[-1]
         n += 1
-        if lines[-1][-1] in {'\r', '\n'}:
+        if last[-1] in {'\r', '\n'}:
+            cache.append(PosLine(i, n, 0))
             n += 1
-        cache.append(PosLine(i, n, 0))
+        else:
+            cache.append(PosLine(i - len(last), n - 1, len(last)))
 
         # the range depends on line[-1] ending in a newline
         endrange = range(len(lines), 2 + len(lines))
